@@ -23,6 +23,11 @@ DblOk(r) ==
                               ELSE IF r.strtod.range /\ N!IsInf(r.strtod.bits) THEN r.dbl.bits \in {PosZero, r.strtod.bits}
                               ELSE r.dbl.bits = r.strtod.bits
       [] OTHER -> r.dbl.bits = PosZero
+\* the type API: enum json_type numbers null 0, boolean 1, double 2, int 3, object 4, array 5, string 6
+TypeNo(k) == CASE k = "null" -> 0 [] k = "bool" -> 1 [] k = "double" -> 2 [] k = "int" -> 3 [] k = "object" -> 4 [] k = "array" -> 5 [] k = "string" -> 6
+TypeName(k) == IF k = "bool" THEN "boolean" ELSE k
+TypeOk(r) == "tname" \in DOMAIN r => /\ r.tname = TypeName(r.src.kind) /\ r.is = <<TypeNo(r.src.kind)>>
+                                      /\ r.foreign_empty /\ r.noname
 AccOk(r) ==
     LET s == r.src
         a == N!GetI64(s)
@@ -32,7 +37,7 @@ AccOk(r) ==
        /\ IntEq(r.u64.v, u.v) /\ ErrOk(u.errno, r.u64.errno)
        /\ IntEq(r.i32.v, i.v) /\ ErrOk(i.errno, r.i32.errno)
        /\ r.bool = N!GetBool(s)
-       /\ DblOk(r)
+       /\ DblOk(r) /\ TypeOk(r)
        /\ r.ambient_same            \* the values do not depend on the errno in effect when the accessor is entered
 IncOk(r) ==
     LET x == N!IncResult(r.store, N!MkInt(r.v.neg, r.v.m), N!MkInt(r.inc.neg, r.inc.m)) IN
